@@ -139,9 +139,26 @@ class CParser:
         to the scope the specifier appears in. The lexer has pushed a scope
         for the '{' just consumed; make it an alias of the enclosing one, so
         that what is declared until the matching '}' stays declared after it.
+
+        Scopes follow the braces the lexer has produced, and the lexer can be
+        ahead of the parser (the look-ahead for a declarator's name, a type
+        name that is parsed twice): the body's scope is below those of the
+        unmatched '{' in the look-ahead, and is gone - the enclosing one being
+        current again - once the body's own '}' is there.
         """
-        if len(self._scope_stack) > 1:
-            self._scope_stack[-1] = self._scope_stack[-2]
+        depth = 0
+        for tok in self._tokens.lookahead():
+            if tok is None:
+                break
+            if tok.type == "LBRACE":
+                depth += 1
+            elif tok.type == "RBRACE":
+                if depth == 0:
+                    return
+                depth -= 1
+        body = len(self._scope_stack) - 1 - depth
+        if body > 0:
+            self._scope_stack[body] = self._scope_stack[body - 1]
 
     def _add_typedef_name(self, name: str, coord: Optional[Coord]) -> None:
         """Add a new typedef name (ie a TYPEID) to the current scope"""
@@ -2475,6 +2492,10 @@ class _TokenStream:
     # path fails restore the position with `reset(pos)`.
     def mark(self) -> int:
         return self._index
+
+    def lookahead(self) -> List[Optional[Token]]:
+        """The tokens that have been lexed but not consumed yet."""
+        return self._buffer[self._index :]
 
     def reset(self, mark: int) -> None:
         self._index = mark
